@@ -235,13 +235,22 @@ Definition y_is_prefix (a b : list N) : bool := nlist_eqb a (firstn (length a) b
 
 (* acc = wire bytes of everything handed over so far, in call order. Returns None on a violated
    requirement, Some (acc', broken', queue_empty_after) otherwise. *)
-Definition ystep_ok (c : codec) (o : gop yenv) (prev x : yobs) (acc : list N) (broken : bool)
+Definition ystep_ok (bytes_rx : bool) (c : codec) (o : gop yenv) (prev x : yobs) (acc : list N) (broken : bool)
   : option (list N * bool) :=
   let same_state := (yo_pbytes x =? yo_pbytes prev) && nlist_eqb (yo_frames x) (yo_frames prev) &&
                     (yo_cur x =? yo_cur prev) in
   let queue_empty := is_nil (yo_frames x) && (yo_cur x =? 0) && (yo_pbytes x =? 0) in
   let counted := yo_pbytes x =? ysum (yo_frames x) + (yo_cur x - 1) in
   if negb (yo_rx prev <=? yo_rx x) then None else
+  (* what the peer holds is a prefix of what was handed over and disjoint from what is still queued: together
+     they never exceed it (a byte written twice, or queued bytes forgotten and written again, would) *)
+  (* bytes_rx: the rx column counts payload bytes (kind 40; the WebRTC oracle reuses this step with another column) *)
+  let bounded (acc' : list N) := negb bytes_rx || broken || (yo_pbytes x + yo_rx x <=? lenN acc') in
+  if match o with
+     | GOp (OSend m) => negb (bounded (if fitsb c m then acc ++ frame c m else acc))
+     | GOp OFlush | GOp OReady | GOp OClose => negb (bounded acc)
+     | _ => false
+     end then None else
   match o with
   | GEnv _ => Some (acc, broken)
   | GOp (OSend m) =>
@@ -262,19 +271,19 @@ Definition ystep_ok (c : codec) (o : gop yenv) (prev x : yobs) (acc : list N) (b
   | GOp OCloseAll => Some (acc, broken)
   end.
 
-Fixpoint ytrace_ok (c : codec) (ops : list (gop yenv)) (obs : list yobs) (prev : yobs) (acc : list N) (broken : bool)
+Fixpoint ytrace_ok (bytes_rx : bool) (c : codec) (ops : list (gop yenv)) (obs : list yobs) (prev : yobs) (acc : list N) (broken : bool)
   : option (list N * bool * yobs) :=
   match obs, ops with
   | [], _ => Some (acc, broken, prev)
   | x :: obs', o :: ops' =>
-      match ystep_ok c o prev x acc broken with
+      match ystep_ok bytes_rx c o prev x acc broken with
       | Some (acc', br') =>
           (* the queue state carries over operations that do not report it *)
           let x' := match o with
                     | GEnv _ | GOp OCloseAll => mkYobs (yo_code x) (yo_np x) (yo_pbytes prev) (yo_frames prev) (yo_cur prev) (yo_rx x)
                     | _ => x
                     end in
-          ytrace_ok c ops' obs' x' acc' br'
+          ytrace_ok bytes_rx c ops' obs' x' acc' br'
       | None => None
       end
   | _ :: _, [] => None
@@ -291,7 +300,7 @@ Definition prop_ok_y (y : ycase) (trace : list N) : bool :=
                   let* data := yp_rle in
                   let* fin := pN in pret (obs, stopped, fl, data, fin)) body with
       | Some (obs, stopped, fl, data, fin) =>
-          match ytrace_ok (yc_codec y) (yc_ops y) obs zero_yobs [] false with
+          match ytrace_ok true (yc_codec y) (yc_ops y) obs zero_yobs [] false with
           | Some (acc, broken, last) =>
               let queue_empty := is_nil (yo_frames last) && (yo_cur last =? 0) && (yo_pbytes last =? 0) in
               (* what the peer has is a prefix of what was handed over, in order ... *)
